@@ -35,7 +35,7 @@ class AttrStep(Step):
     def invert(self, doc: Node) -> Step:
         node_at_pos = doc.node_at(self.pos)
         assert node_at_pos is not None
-        return AttrStep(self.pos, self.attr, node_at_pos.attrs[self.attr])
+        return AttrStep(self.pos, self.attr, node_at_pos.attrs.get(self.attr))
 
     def map(self, mapping: Mappable) -> Step | None:
         pos = mapping.map_result(self.pos, 1)
